@@ -81,14 +81,14 @@ with parse_arr (fuel : nat) (cnt : N) (bs : bytes) (acc : list value) {struct fu
   match fuel with
   | O => None
   | S f =>
-      if cnt =? 0 then Some (VArr (rev acc), bs)
+      if cnt =? 0 then Some (VArr (rev_append acc []), bs)
       else '(v, r) <~ parse f bs ;; parse_arr f (cnt - 1) r (v :: acc)
   end
 with parse_map (fuel : nat) (cnt : N) (bs : bytes) (acc : list (value * value)) {struct fuel} : option (value * bytes) :=
   match fuel with
   | O => None
   | S f =>
-      if cnt =? 0 then Some (VMap (rev acc), bs)
+      if cnt =? 0 then Some (VMap (rev_append acc []), bs)
       else '(k, r) <~ parse f bs ;; '(v, r') <~ parse f r ;; parse_map f (cnt - 1) r' ((k, v) :: acc)
   end.
 
